@@ -96,6 +96,7 @@ type input struct {
 	Desc    string          `json:"desc,omitempty"`
 	Verdict string          `json:"verdict,omitempty"`
 	Text    string          `json:"text,omitempty"`    // the file given to the loaders
+	Text2   string          `json:"text2,omitempty"`   // reload: the second file
 	Payload json.RawMessage `json:"payload,omitempty"` // roundtrip: the metadata that was dumped
 	IsLink  bool            `json:"is_link,omitempty"`
 	Sigs    []intoto.Signature `json:"sigs,omitempty"`
@@ -257,6 +258,46 @@ func corruptCase(d *doc, c corruption) lib.Case {
 		CoqModel: loadTerm(outer, wellFormed)}
 }
 
+// the deprecated loader called twice on the same Metablock: the signature list of the
+// first file is what the second one is decoded into (no demand by the property: model tie)
+func reloadCase(r *lib.Rng) lib.Case {
+	sa := []intoto.Signature{{KeyID: hexStr(r, 8), Sig: hexStr(r, 8), Certificate: "certA"}, {KeyID: hexStr(r, 8), Sig: hexStr(r, 8)}}
+	var sb []intoto.Signature
+	for i := r.Range(0, 3); i > 0; i-- {
+		sb = append(sb, intoto.Signature{KeyID: hexStr(r, 8), Sig: hexStr(r, 8)})
+	}
+	da, err := makeDoc("L", genLink(r), sa)
+	if err != nil {
+		panic(err)
+	}
+	db, err := makeDoc("L", genPayload(r, r.Bool(), false), sb)
+	if err != nil {
+		panic(err)
+	}
+	ta, tb := da.Outer.JSON(), db.Outer.JSON()
+	impl := runReload(ta, tb)
+	model := "(let ta := " + da.Outer.Coq() + " in let tb := " + db.Outer.Coq() +
+		" in match metablock_load GNil (Some ta) with Ok ra => show_res show_loaded (metablock_load (ld_sigs ra) (Some tb)) | _ => " + lib.CoqStr("A-ERR") + " end)"
+	in := input{Kind: "reload", Wrapper: "L", Text: ta, Text2: tb, Desc: "Metablock.Load of a second file into the same Metablock"}
+	return lib.Case{Klass: "reload-legacy", Input: lib.MustJSON(in), Impl: impl, CoqModel: model}
+}
+
+func runReload(ta, tb string) string {
+	pa, pb := tmpFile("a.json"), tmpFile("b.json")
+	os.WriteFile(pa, []byte(ta), 0644)
+	os.WriteFile(pb, []byte(tb), 0644)
+	return lib.Recover(func() string {
+		var mb intoto.Metablock
+		if err := mb.Load(pa); err != nil {
+			return "A-ERR"
+		}
+		if err := mb.Load(pb); err != nil {
+			return "ERR"
+		}
+		return "OK" + showMetadata(&mb)
+	})
+}
+
 // stratified sample: round-robin over the classes
 func sample(r *lib.Rng, cs []corruption, n int) []corruption {
 	if n >= len(cs) {
@@ -313,6 +354,10 @@ func gen(out string, n int) {
 			wr = "D"
 		}
 		w.Put(roundtripCase(rr.Fork(), wr, (i/2)%2 == 0, i%5 >= 3))
+	}
+
+	for i := 0; i < 2+n/100; i++ {
+		w.Put(reloadCase(rr.Fork()))
 	}
 
 	// (3) validator
@@ -401,6 +446,10 @@ func main() {
 			lm, ml := runLoaders(in.Text)
 			fmt.Println("impl LoadMetadata:   " + lm)
 			fmt.Println("impl Metablock.Load: " + ml)
+		case "reload":
+			fmt.Println("first file:  " + in.Text)
+			fmt.Println("second file: " + in.Text2)
+			fmt.Println("impl: " + runReload(in.Text, in.Text2))
 		case "validate":
 			fmt.Println("impl: " + runValidate(in.Target, in.Val))
 		}
